@@ -1,8 +1,9 @@
 (* Extraction of the executable models for the correspondence check.
    ExtrOcamlBasic only (bool, option, unit, prod, list, sumbool, sumor); Z/positive/nat/Q stay inductive. *)
 From Coq Require Import Extraction ExtrOcamlBasic.
-From TV Require Import Base.Result Packet.Checksum.
+From TV Require Import Base.Result Packet.Checksum Core.Types Core.TracerState Core.Strategy.
 Extraction Language OCaml.
 Extraction "model.ml" fault error result
   checksum ip_checksum ipv4_header_checksum icmp_ipv4_checksum icmp_ipv6_checksum
-  udp_ipv4_checksum tcp_ipv4_checksum udp_ipv6_checksum paris_udp.
+  udp_ipv4_checksum tcp_ipv4_checksum udp_ipv6_checksum paris_udp
+  run ts_new next_probe reissue_probe fail_probe complete_probe advance_round in_round round_has_capacity probes strategy_resp.
